@@ -121,10 +121,63 @@ Definition prop_littok (text : list N) (consumed : nat) (o : observed) : bool :=
     | _ => false
     end.
 
+(* ---- a program of '.rad50' statements ------------------------------------------------------
+   Every element is one COMPILATION of a '.rad50' statement (a statement in the body of '.repeat' is
+   compiled once per iteration), in address order, with each <expr> chunk replaced by the value the
+   expression has in that compilation ('.', symbols).  Nothing else emits bytes, so the image is
+   the concatenation of the statements' words; the assembly fails iff some compilation has a bad
+   character or a bad code. *)
+Definition count_id (id : string) (ids : list string) : nat := length (filter (string_eqb id) ids).
+
+Definition corr_prog (exact : bool) (stmts : list (list chunk)) (o : observed) : bool :=
+  let rs := map (rad50 rad50_table) stmts in
+  let errs := flat_map (fun r => match r with Err ids => ids | _ => [] end) rs in
+  let weird := existsb (fun r => match r with Ok _ => false | Err _ => false | _ => true end) rs in
+  if weird then false else
+  match errs, o with
+  | [], OOk bs' => list_eqb Z.eqb (flat_map (fun r => match r with Ok bs => bs | _ => [] end) rs) bs'
+  | _ :: _, OErr ids' =>
+      if exact then list_eqb string_eqb errs ids'
+      else
+        (* a statement that uses a symbol defined further down is compiled when the symbol becomes known: its
+           diagnostics come later, and those reported before the evaluation was put off come again *)
+        forallb (fun id => mem_id id errs) ids' &&
+        forallb (fun id => Nat.leb (count_id id errs) (count_id id ids')) errs
+  | _, _ => false
+  end.
+
+Fixpoint all_some {A} (l : list (option A)) : option (list A) :=
+  match l with
+  | [] => Some []
+  | Some x :: rest => match all_some rest with Some r => Some (x :: r) | None => None end
+  | None :: _ => None
+  end.
+
+Definition prop_prog (stmts : list (list chunk)) (o : observed) : bool :=
+  let specs := map spec_text stmts in
+  let bc := existsb (fun s => snd (fst s)) specs in
+  let bn := existsb (fun s => snd s) specs in
+  match all_some (map (fun s => fst (fst s)) specs), o with
+  | Some texts, OOk bs =>
+      even_len bs && bytes_ok bs &&
+      let ws := words_of_bytes bs in
+      forallb (fun w => w <? 64000) ws &&
+      opt_eqb (list_eqb N.eqb) (decode ws) (Some (flat_map (pad3 32%N) texts))
+  | None, OErr ids =>
+      (* every compilation with a bad code / a bad character is reported *)
+      Nat.leb (length (filter (fun s => snd s) specs)) (count_id "value-out-of-bounds" ids) &&
+      Nat.leb (length (filter (fun s => snd (fst s)) specs)) (count_id "invalid-character" ids) &&
+      (if bc then mem_id "invalid-character" ids else true) &&
+      (if bn then mem_id "value-out-of-bounds" ids else true)
+  | _, _ => false
+  end.
+
 Inductive case :=
 | CLitTok (text : list N) (consumed : nat) (o : observed)
 | CDir (cs : list chunk) (o : observed)
 | CLit (text : list N) (o : observed)
+(* the compilations of the '.rad50' statements of a program; exact = no symbol is used before its definition *)
+| CProg (exact : bool) (stmts : list (list chunk)) (o : observed)
 (* exhaustive: first code a, letters lower-cased?, the 1600 observed words for (b, c) = (0,0) (0,1) ... (39,39)
    of '.rad50 /abc/' *)
 | CDirTriples (a : Z) (lower : bool) (ws : list Z)
@@ -188,6 +241,7 @@ Definition judge (c : case) : N :=
   match c with
   | CDir cs o => code_of (corr_dir cs o) (prop_dir cs o)
   | CLit text o => code_of (corr_lit text o) (prop_lit text o)
+  | CProg exact stmts o => code_of (corr_prog exact stmts o) (prop_prog stmts o)
   | CLitTok text n o => code_of (corr_littok text n o) (prop_littok text n o)
   | CDirTriples a lower ws =>
       if negb (Nat.eqb (length ws) 1600) then 3%N else
